@@ -8,6 +8,9 @@
                    leaves in the stored entry (= dests unless overwritten)
         entries run through Profiles.Set in order, then Get(src, dst, mac) and Get(nil, nil, nil)
         → list=<id;prefix;mac;dests of each final entry, comma separated | -> get=<hex> nilget=<hex>
+    pseq <src/dst/mac>,… <entry>*   one resolver wired as in run.go answers the queries of these
+        clients in order → seq=<ctx:path:profile>,…  (every query is resolved under the profile of
+        ITS tuple, whatever was asked before)
     purl <id>        the DoH side for profile <id>: cache context, request path, ResolveInfo.Profile
         → ctx=<hex> path=<hex> profile=<hex>     (ids of URL-unreserved characters only; else "unsupported")
 -/
@@ -69,6 +72,25 @@ def stepProf (toks : List String) : Option String :=
       let (url, profile) := getProfileURL [{ id := id }] {}
       let (ctx, path) := dohCtxAndPath url
       some s!"ctx={toHexOrDash ctx} path={toHexOrDash path} profile={toHexOrDash profile}"
+  | "pseq" :: tuples :: entries =>
+    let parseT (t : String) : Option Client :=
+      match t.splitOn "/" with
+      | [a, b, m] => do
+        let src ← parseOptIP a
+        let dst ← parseOptIP b
+        let mac ← ofHex m
+        pure { src := src, dst := dst, mac := mac }
+      | _ => none
+    match (tuples.splitOn ",").mapM parseT, parseEntries entries with
+    | some cs, some es =>
+      let ps := es.foldl (fun acc e => setStore acc e.1 e.2) []
+      if !(ps.all fun p => p.id.all unreserved) then some "unsupported" else
+      let outs := cs.map fun c =>
+        let (url, profile) := getProfileURL ps c
+        let (ctx, path) := dohCtxAndPath url
+        s!"{toHexOrDash ctx}:{toHexOrDash path}:{toHexOrDash profile}"
+      some s!"seq={joinOrDash outs}"
+    | _, _ => some "bad-op"
   | "prof" :: src :: dst :: mac :: entries =>
     match parseOptIP src, parseOptIP dst, ofHex mac, parseEntries entries with
     | some src, some dst, some mac, some es =>
